@@ -28,7 +28,7 @@ LEVEL_TEXT = ("seeded search over thread schedules of the real code: random sche
 LEVEL_NOTE = ("pre-emption granularity is the source line of ellipticcurve.py / numbertheory.py / _rwlock.py (bytecode "
               "instruction inside the publishing functions in instr mode); SimLock replaces threading.Lock only; "
               "interleavings inside C builtins or a single bytecode are out of reach")
-RUNS = {"quick": 30000, "thorough": 1500000}
+RUNS = {"quick": 30000, "thorough": 800000}
 RULE = ("lock part: seeded programs for up to 2 readers + 2 writers (1-3 rounds, 0-3 yields and optional stall inside the "
         "critical section) x seeded schedule (pre-emption steps + choice list); curve part: 2-3 thread programs over "
         "shared fresh generator / shared Jacobian point on a toy prime-order curve, SECP112r1/128r1 or NIST256p x "
@@ -150,7 +150,9 @@ def gen(st, tier):
     w = st["workload"]
     s = st["schedule"]
     i = w.randrange(100)
-    if tier == "thorough" and w.random() < 0.35:
+    if tier == "thorough" and st.index < SWEEP_TOTAL:
+        return _gen_sweep_systematic(st.index)
+    if tier == "thorough" and w.random() < 0.15:
         return _gen_sweep(w, s)
     if i < 62:
         nr, nw = w.choice([(1, 1), (2, 1), (1, 2), (2, 2), (2, 2), (2, 0), (0, 2)])
@@ -181,6 +183,37 @@ def _gen_curve(w, s, curve, instr=False):
     pre, ch = _sched_spec(s)
     return {"part": "curve", "curve": curve, "progs": progs, "world": w.getrandbits(32),
             "preempt": pre, "choices": ch, "instr": instr}
+
+
+# systematic single-pre-emption sweeps (thorough tier): for each configuration, thread 0 is pre-empted at its
+# j-th own step for j = 0..K-1 (K >= the step count of thread 0, checked and reported in evidence), thread 1
+# then runs to completion, then thread 0 finishes.
+SWEEPS = []
+for _first, _second in ((["mulG", 7], ["mulG", 11]), (["mulG", 13], ["muladd", 3, 5]), (["scaleP"], ["xyP"]),
+                        (["scaleP"], ["scaleP"]), (["affP"], ["eqPQ"]), (["muladd", 5, 9], ["mulG", 4]),
+                        (["mulG", 9], ["pickleG"]), (["scaleP"], ["muladd", 2, 3])):
+    SWEEPS.append(("toy", _first, _second, 1024))
+for _first, _second in ((["mulG", 123456789], ["mulG", 987654321]), (["scaleP"], ["muladd", 1234567, 7654321]),
+                        (["mulG", 55555], ["affP"])):
+    SWEEPS.append(("secp112r1", _first, _second, 8192))
+for _first, _second in ((["mulG", 0x1234567890ABCDEF1234567890ABCDEF], ["mulG", 0xFEDCBA0987654321FEDCBA0987654321]),
+                        (["mulG", 0x1234567890ABCDEF1234567890ABCDEF], ["signverify", 1])):
+    SWEEPS.append(("nist256p", _first, _second, 16384))
+SWEEP_OFFSETS = []
+_acc = 0
+for _c in SWEEPS:
+    SWEEP_OFFSETS.append(_acc)
+    _acc += _c[3]
+SWEEP_TOTAL = _acc
+
+
+def _gen_sweep_systematic(index):
+    k = max(i for i, off in enumerate(SWEEP_OFFSETS) if off <= index)
+    curve, first, second, K = SWEEPS[k]
+    j = index - SWEEP_OFFSETS[k]
+    return {"part": "curve", "curve": curve, "progs": [[first], [second]], "world": 1000 + k,
+            "preempt": [["local", 0, j + 1]], "choices": [0] * 8, "instr": False, "first": 0,
+            "sweep": True, "sweep_cfg": k}
 
 
 def _gen_sweep(w, s):
@@ -380,14 +413,21 @@ def _make_world(case):
     w.Q2 = _ec.PointJacobi(cf, w.Q2aff[0] * z3 * z3 % p, w.Q2aff[1] * z3 * z3 * z3 % p, z3, n)
     w.seed = case["world"]
     if name == "nist256p":
-        # library-level programs use the module-level curve object: give it the fresh generator
+        # library-level programs use the module-level curve object.  Keys are made while a *throw-away*
+        # generator is installed (making a key multiplies the generator and would build the table), then
+        # their generator references are pointed at the fresh shared generator, whose table is still
+        # empty: the first use - and the lazy table construction - happens inside the run.
         w.saved_gen = c.generator
-        c.generator = w.G
+        c.generator = _ec.PointJacobi(cf, gx, gy, 1, n, generator=True)
         d = r.randrange(2, n - 1)
         w.sk = _keys.SigningKey.from_secret_exponent(d, curve=c)
         w.vk = w.sk.verifying_key
         w.recip_d = r.randrange(2, n - 1)
         w.recip = env.REAL_PRIV.create_from_der_fmt(refp256.sec1_private_der(w.recip_d))
+        for key in (w.sk, w.recip.private_key):
+            key.verifying_key.pubkey.generator = w.G
+            key.privkey.public_key.generator = w.G
+        c.generator = w.G
     return w
 
 
@@ -544,6 +584,11 @@ def _run_curve(case, out):
             out.probes["three-threads"] += 1
         if case.get("sweep"):
             out.probes["sweep-run"] += 1
+        if case.get("sweep_cfg") is not None:
+            k = case["sweep_cfg"]
+            out.sets["sweep%02d_steps_of_thread0" % k] = {dry.threads[0].steps}
+            if npre:
+                out.sets["sweep%02d_points_preempted" % k] = {p[2] for p in pre if not isinstance(p, int)}
         if case.get("instr"):
             out.probes["instr-mode"] += 1
         if table0:
@@ -590,6 +635,21 @@ def _run_curve(case, out):
     finally:
         env.restore_registry()
     return out
+
+
+def evidence_extra(total):
+    """completeness of the systematic sweeps: every own step of thread 0 was a pre-emption point"""
+    rep = {}
+    for k, cfg in enumerate(SWEEPS):
+        pts = total["sets"].get("sweep%02d_points_preempted" % k)
+        n = total["sets"].get("sweep%02d_steps_of_thread0" % k)
+        if pts and n and len(n) == 1:
+            steps = next(iter(n))
+            # the last own step cannot be pre-empted usefully only if the thread finished; count 1..steps
+            rep["sweep %d %s %s|%s" % (k, cfg[0], cfg[1], cfg[2])] = {
+                "steps_of_thread0": steps, "distinct_points_preempted": len(pts),
+                "complete": all(j in pts for j in range(1, steps))}
+    return {"systematic_sweeps": rep} if rep else {}
 
 
 def run(case):
